@@ -14,6 +14,8 @@ pub struct Ctl {
     pub pos: usize,
     /// request numbers (0-based) that fail
     pub fail_at: Vec<usize>,
+    /// errno reported by a failing request
+    pub errno: c_int,
     pub calls: usize,
     pub log: Vec<Value>,
 }
@@ -22,9 +24,9 @@ thread_local! {
     static CTL: RefCell<Ctl> = RefCell::new(Ctl::default());
 }
 
-pub fn configure(feed: Option<Vec<u8>>, fail_at: Vec<usize>) {
+pub fn configure(feed: Option<Vec<u8>>, fail_at: Vec<usize>, errno: c_int) {
     CTL.with(|c| {
-        *c.borrow_mut() = Ctl { active: true, feed, pos: 0, fail_at, calls: 0, log: Vec::new() };
+        *c.borrow_mut() = Ctl { active: true, feed, pos: 0, fail_at, errno, calls: 0, log: Vec::new() };
     });
 }
 
@@ -55,9 +57,10 @@ pub unsafe extern "C" fn getentropy(buffer: *mut u8, len: usize) -> c_int {
         let call = c.calls;
         c.calls += 1;
         if len > 256 || (c.active && c.fail_at.contains(&call)) {
-            *__errno_location() = 5; // EIO
+            let errno = if c.active { c.errno } else { 5 }; // default EIO
+            *__errno_location() = errno;
             if c.active {
-                c.log.push(json!({"len": len, "rc": -1, "hex": ""}));
+                c.log.push(json!({"len": len, "rc": -1, "hex": "", "errno": errno}));
             }
             return -1;
         }
